@@ -1,3 +1,8 @@
--- Root of the `Goat` library.
+-- Root of the `Goat` library: everything the checks build.
 import Goat.Gen.Types
 import Goat.Gen.Tables
+import Goat.Model.Pratt
+import Goat.Model.PrattGen
+import Goat.Spec.GoPrec
+import Goat.Lemmas.Pratt
+import Goat.Props.C05
